@@ -87,8 +87,18 @@ def gen_scenario(rng, fam):
                                       'E%d.%d partial' % (i, k))),
                    'start': None,
                    'args': rng.choice(([], ['-x'], ['two words', '$HOME'],
-                                       ["it's"]))}
-            if rng.random() < p_fail:
+                                       ["it's"], ['-x'], [],
+                                       # a file name that is not valid UTF-8,
+                                       # as os.listdir() returns it
+                                       ['caf\udce9.txt'],
+                                       # a number: subprocess refuses it
+                                       ['-n', 3]))}
+            if any(not isinstance(a, str) for a in cmd['args']) and not real:
+                cmd['start'] = 'BADARG'
+            elif real:
+                cmd['args'] = [a for a in cmd['args'] if isinstance(a, str)
+                               and a.isprintable() and '\udce9' not in a]
+            if rng.random() < p_fail and not cmd['start']:
                 kind = rng.random()
                 if kind < 0.6:
                     cmd['exit'] = rng.choice((1, 2, 127, 255, -9, -15))
@@ -567,7 +577,7 @@ def oracle(scn, res):
 
 
 def echo_line(cli):
-    return '$ ' + ' '.join(shlex.quote(tok) for tok in cli) + '\n'
+    return '$ ' + ' '.join(shlex.quote(str(tok)) for tok in cli) + '\n'
 
 
 def captured_differs(text, parts):
